@@ -123,7 +123,12 @@ Proof. split; reflexivity. Qed.
 (** ** Verbatim printing when nothing is cut. *)
 Theorem verbatim_no_cut delim buf :
   format_standard delim (ctx_finish false true false buf ctx0) = buf.
-Proof. reflexivity. Qed.
+Proof.
+  unfold format_standard, ctx_finish, no_fields_extracted.
+  cbn [ctx0 fields fmt_lines is_nil andb negb forallb is_sentinel].
+  change (text_eqb (T "0") (T "0")) with true. cbn [andb flat_map snd].
+  now rewrite !app_nil_r.
+Qed.
 
 (** ** Templates. *)
 Definition plain_char (c : N) : bool := negb ((c =? 92) || (c =? 123) || (c =? 125)).
